@@ -108,20 +108,39 @@ fn main() {
         Some("replay") => {
             let suite = args[2].as_str();
             let mode = args[3].as_str();
-            let text = std::fs::read_to_string(&args[4]).expect("cases file");
+            // the cases file can be several GB (thorough tier): read and replay it in chunks
+            use std::io::BufRead;
             let accept: Option<Vec<String>> = arg(&args, "--accept").map(|a| a.split(',').map(|x| x.to_string()).collect());
-            let cases: Vec<J> = text.lines().filter(|l| !l.trim().is_empty()).map(|l| serde_json::from_str::<J>(l).expect("case json"))
-                .filter(|c| match (&accept, c.get("mode").and_then(|m| m.as_str())) { (Some(a), Some(m)) => a.iter().any(|x| x == m), _ => true }).collect();
+            let file = std::io::BufReader::with_capacity(1 << 20, std::fs::File::open(&args[4]).expect("cases file"));
             let mut out = Out::new(&out_path);
-            match suite {
-                "slice" => replay::slice_cases(mode, &cases, &mut out),
-                "build" => build::replay(mode, &cases, &mut out),
-                "reader" => reader::replay(mode, &cases, &mut out),
-                "stats" => stats::replay(mode, &cases, &mut out),
-                "fibex" => fibex::replay(mode, &cases, &mut out, &out_path),
-                _ => { eprintln!("unknown suite {}", suite); std::process::exit(2) }
+            let mut total = 0usize;
+            let mut cases: Vec<J> = vec![];
+            let mut bytes = 0usize;
+            let mut run_chunk = |cases: &mut Vec<J>, out: &mut Out| {
+                if cases.is_empty() { return; }
+                match suite {
+                    "slice" => replay::slice_cases(mode, cases, out),
+                    "build" => build::replay(mode, cases, out),
+                    "reader" => reader::replay(mode, cases, out),
+                    "stats" => stats::replay(mode, cases, out),
+                    "fibex" => fibex::replay(mode, cases, out, &out_path),
+                    _ => { eprintln!("unknown suite {}", suite); std::process::exit(2) }
+                }
+                cases.clear();
+            };
+            for line in file.lines() {
+                let line = line.expect("cases file line");
+                if line.trim().is_empty() { continue; }
+                let c: J = serde_json::from_str(&line).expect("case json");
+                let keep = match (&accept, c.get("mode").and_then(|m| m.as_str())) { (Some(a), Some(m)) => a.iter().any(|x| x == m), _ => true };
+                if !keep { continue; }
+                bytes += line.len();
+                total += 1;
+                cases.push(c);
+                if cases.len() >= 20000 || bytes >= (64 << 20) { run_chunk(&mut cases, &mut out); bytes = 0; }
             }
-            out.finish(&out_path, json!({"cases": cases.len()}));
+            run_chunk(&mut cases, &mut out);
+            out.finish(&out_path, json!({"cases": total}));
         }
         Some("fibex-child") => fibex::child_main(&args[2]),
         Some("sweep") => {
